@@ -22,13 +22,13 @@ def handlers : List (String → List String → Option String) := [
   Crc.handle?,
   Cell.handle?,
   Builder.handle?,
-  BocParse.handle?
-  Proof.handle?
-  Msg.handle?
-  Tlb.handle?
+  BocParse.handle?,
+  Proof.handle?,
+  Msg.handle?,
+  Tlb.handle?,
   Sig.handle?,
-  Adnl.handle?
-  Heap.handle?
+  Adnl.handle?,
+  Heap.handle?,
   Address.handle?
 ]
 
